@@ -114,6 +114,18 @@ func (p *Prog) TPkg(rel string) *packages.Package {
 // Func finds a package-level function or a method: Func("peer","SignedMsg","ExtractAndVerify") or
 // Func("peer","","IDFromBytes"). Returns nil if absent.
 func (p *Prog) Func(rel, recv, name string) *ssa.Function {
+	f := p.funcLookup(rel, recv, name)
+	if f != nil {
+		Anchored[f] = true
+	}
+	return f
+}
+
+// Anchored records the functions the property files asked for by name or resolved by role: they are subjects of rules of
+// their own and are never explored inline as somebody's helper (rules refer to their calls and results as such).
+var Anchored = map[*ssa.Function]bool{}
+
+func (p *Prog) funcLookup(rel, recv, name string) *ssa.Function {
 	sp := p.Pkg(rel)
 	if sp == nil {
 		return nil
